@@ -314,6 +314,37 @@ func c05RunProg(c *core.C, kind string, prog c05Prog) {
 	}
 	c.Count(fmt.Sprintf("rounds_%02d", min(want.Rounds, 20)), 1)
 
+	// the same program evaluated in a CLONE of the world it was entered into (the original is not
+	// used again): a clone holds the same facts, rules and limits, so it has the same least model
+	if len(prog.Rules) > 0 && len(want.Facts) > inputN {
+		c.Eval(1)
+		s3 := dl.NewSyms()
+		var cErr, cBack error
+		var cKeys []string
+		if pi := lib.Try(func() {
+			orig := bigWorld()
+			for _, f := range prog.Facts {
+				orig.AddFact(datalog.Fact{Predicate: s3.Pred(f)})
+			}
+			for _, rl := range prog.Rules {
+				orig.AddRule(s3.Rule(rl))
+			}
+			cl := orig.Clone()
+			if cErr = cl.Run(s3.T); cErr == nil {
+				cKeys, cBack = s3.FactKeys(cl.Facts())
+			}
+		}); pi != nil {
+			c.Violate("run-panic/"+pi.Site, "World.Clone().Run panicked: "+pi.Msg, wit(nil))
+		} else if cErr != nil {
+			c.Violate("clone-run-error-on-error-free-program/"+kind, cErr.Error(), wit(nil))
+		} else if cBack == nil {
+			if m, e := diffKeys(want.Facts.Keys(), cKeys); len(m) > 0 || len(e) > 0 {
+				c.Violate("cloned-world-has-another-least-model/"+kind, fmt.Sprintf("World.Clone().Run: missing %s extra %s", core.Head(strings.Join(m, " "), 150), core.Head(strings.Join(e, " "), 150)), wit(map[string]any{"missing": m, "extra": e}))
+			}
+		}
+		c.Count("cloned_world_runs", 1)
+	}
+
 	// the same program with the fact limit just above the size of its least model: it stays
 	// within the limit, so the run must still end without error on exactly the least model
 	// (a budget that also counts re-derived facts would stop short of it)
